@@ -1,6 +1,8 @@
 /- C18 stated about `item_property._name_or_alias` and the SM chart's guarded assignment as translated from the Python source. -/
 import Simfile.Props.GenEq.Views
+import Simfile.Props.GenEq.Equality
 import Simfile.Props.C18
+import Simfile.Props.C18Eq
 namespace Simfile.GenProps
 open Simfile
 
@@ -32,5 +34,17 @@ theorem sm_chart_assignment (d : Dict) (k v : Str) :
   · intro h
     have : T.smChartProperties.contains k = true := by simpa using h
     simp [this, h]
+
+/-- C18, "equality sees exactly the mapping's content": the generated `BaseSimfile.__eq__` holds exactly between objects of the
+same class with the same items in the same order and equal charts -/
+theorem eq_sees_mapping (a b : EqObj) (ha : Dict.WF a.items) (hb : Dict.WF b.items) :
+    GenCode.simfileEq a b = true ↔
+      a.kind = b.kind ∧ a.items = b.items ∧ chartsEq (a.kind = .smSimfile) a.charts b.charts = true := by
+  rw [GenEq.simfileEq_eq]; exact C18Eq.simfile_eq_iff a b ha hb
+
+/-- … never between a mapping and the same mapping with one more item at the end (either way round) -/
+theorem eq_longer_unequal (a : EqObj) (kv : Str × Option Str) (ha : Dict.WF a.items) (hb : Dict.WF (a.items ++ [kv])) :
+    GenCode.simfileEq a { a with items := a.items ++ [kv] } = false ∧ GenCode.simfileEq { a with items := a.items ++ [kv] } a = false := by
+  rw [GenEq.simfileEq_eq, GenEq.simfileEq_eq]; exact C18Eq.longer_unequal a kv ha hb
 
 end Simfile.GenProps
